@@ -174,6 +174,7 @@ func (o *c33Oracle) Final(w *World) {
 }
 
 func isisShape(iw *isisWorld) string {
+	iw.w.Data["sim_time_ns"] = int64(iw.now())
 	var sb strings.Builder
 	for _, s := range iw.w.Plan.Steps {
 		switch s.Kind {
